@@ -21,6 +21,7 @@ structure Obs where
   tagmap : List Nat
   free : List Nat
   next : Nat
+  qlen : Nat          -- `_send_queue.qsize()`
   deriving Repr, DecidableEq
 
 /-- insertion sort (structural, so that concrete histories evaluate inside the kernel) -/
@@ -33,7 +34,8 @@ def sortNat : List Nat → List Nat
   | x :: xs => insNat x (sortNat xs)
 
 def obsOf (s : St) (o : Out) : Obs :=
-  ⟨o.res, o.assigned, o.wrote, o.delivered, sortNat (tmKeys s.tagmap), sortNat s.pool.free, s.pool.next⟩
+  ⟨o.res, o.assigned, o.wrote, o.delivered, sortNat (tmKeys s.tagmap), sortNat s.pool.free, s.pool.next,
+   s.sendq.length⟩
 
 def step (cfg : Cfg) (s : St) (op : Op) : St × Obs :=
   let r := stepOp cfg.max s op
@@ -102,17 +104,19 @@ def decFrame : V → Option Frame
 
 def encObs (o : Obs) : V :=
   .l [encRes o.res, V.ofNat o.assigned, .l (o.wrote.map encFrame), V.ofNats o.delivered,
-      V.ofNats o.tagmap, V.ofNats o.free, V.ofNat o.next]
+      V.ofNats o.tagmap, V.ofNats o.free, V.ofNat o.next, V.ofNat o.qlen]
 
 def decObs : V → Option Obs
-  | .l [r, a, .l fs, d, tm, fr, nx] => do
-      pure ⟨← decRes r, ← a.nat?, ← fs.mapM decFrame, ← d.natList?, ← tm.natList?, ← fr.natList?, ← nx.nat?⟩
+  | .l [r, a, .l fs, d, tm, fr, nx, ql] => do
+      pure ⟨← decRes r, ← a.nat?, ← fs.mapM decFrame, ← d.natList?, ← tm.natList?, ← fr.natList?, ← nx.nat?,
+            ← ql.nat?⟩
   | _ => none
 
 /-! ### specification over a history
 
-  What the property text demands of the observations, nothing else:
+  What the property texts demand of the observations, nothing else.
 
+  C11 (tags):
   * `reserved` / `range` — a tag given to a request, and the tag of every request frame
     written, lies in `[2, max − 1]` (= `[2, 2^24 − 2]` for the transport's pool);
   * `unique` — a request frame is never written with a tag that an earlier written request
@@ -121,24 +125,75 @@ def decObs : V → Option Obs
     tag, or while no written-and-unanswered request carries it (its request was never written);
   * `reuse` — a request takes a released tag whenever there is one;
   * `highwater` — `next − 1` never exceeds the peak number of tags awaiting an answer
-    (requests in flight plus timed-out requests whose discard the peer has not answered). -/
+    (requests in flight plus timed-out requests whose discard the peer has not answered).
+
+  C02, multiplexed hop:
+  * `own-reply` — when a frame of the peer on tag `t` is delivered to a request and a written,
+    unanswered request frame carries `t`, the delivery goes to the request of that frame.  (No
+    assumption on the peer: it may answer twice, answer unknown tags, answer early.)
+
+  C12, multiplexed hop (`spec12` = all of the above and):
+  * `write-after-timeout` — no request frame of a request whose deadline event has fired is written;
+  * `discard-unexpected` — a Tdiscarded is written only for a tag that is due: the time-out
+    callback ran for a request whose frame was written with that tag and not answered since;
+    each written Tdiscarded settles one due entry;
+  * `discard-missing` — when the send queue is empty, no Tdiscarded is due any more. -/
 
 structure Acc where
-  unans : List Nat := []     -- tags of written request frames the peer has not answered since
-  peak : Nat := 0            -- peak size of the tag map on this connection
-  pfree : List Nat := []     -- free set in the previous observation
+  unans : List (Nat × Nat) := []   -- (tag, request id) of written request frames the peer has not answered since
+  peak : Nat := 0                  -- peak size of the tag map on this connection
+  pfree : List Nat := []           -- free set in the previous observation
+  nreq : Nat := 0                  -- requests issued on this connection (= the next request id)
+  fired : List Nat := []           -- requests whose deadline event has fired
+  owed : List Nat := []            -- tags for which a Tdiscarded is due and not yet written
   deriving Repr
+
+/-- tags of the written, unanswered request frames -/
+def Acc.tags (a : Acc) : List Nat := a.unans.map (·.1)
 
 def reqTags (fs : List Frame) : List Nat :=
   (fs.filter (fun f => f.kind == .req)).map (·.tag)
 
+/-- (tag, request id) of the request frames among `fs` -/
+def reqPairs (fs : List Frame) : List (Nat × Nat) :=
+  (fs.filter (fun f => f.kind == .req)).map (fun f => (f.tag, f.arg))
+
+/-- tags named by the Tdiscarded frames among `fs` -/
+def discTags (fs : List Frame) : List Nat :=
+  (fs.filter (fun f => f.kind == .discard)).map (·.arg)
+
+def eraseAll (l : List Nat) : List Nat → List Nat
+  | [] => l
+  | t :: ts => eraseAll (l.erase t) ts
+
+/-- the tags request `rid` is known to have on the wire, unanswered -/
+def tagsOf (unans : List (Nat × Nat)) (rid : Nat) : List Nat :=
+  (unans.filter (fun p => p.2 == rid)).map (·.1)
+
 /-- the accumulator after a step -/
 def Acc.after (a : Acc) (op : Op) (o : Obs) : Acc :=
   match op with
-  | .reopen => { unans := [], peak := o.tagmap.length, pfree := o.free }
+  | .reopen => { unans := [], peak := o.tagmap.length, pfree := o.free, nreq := 0, fired := [], owed := [] }
   | .process _ t =>
-    { unans := a.unans.filter (· != t) ++ reqTags o.wrote, peak := Nat.max a.peak o.tagmap.length, pfree := o.free }
-  | _ => { unans := a.unans ++ reqTags o.wrote, peak := Nat.max a.peak o.tagmap.length, pfree := o.free }
+    { a with unans := a.unans.filter (fun p => p.1 != t) ++ reqPairs o.wrote,
+             peak := Nat.max a.peak o.tagmap.length, pfree := o.free,
+             owed := eraseAll a.owed (discTags o.wrote) }
+  | .req e _ =>
+    { a with unans := a.unans ++ reqPairs o.wrote, peak := Nat.max a.peak o.tagmap.length, pfree := o.free,
+             nreq := a.nreq + 1, fired := if e = .pre then a.nreq :: a.fired else a.fired,
+             owed := eraseAll a.owed (discTags o.wrote) }
+  | .fire rid =>
+    { a with unans := a.unans ++ reqPairs o.wrote, peak := Nat.max a.peak o.tagmap.length, pfree := o.free,
+             fired := rid :: a.fired, owed := eraseAll a.owed (discTags o.wrote) }
+  | .notify rid =>
+    { a with unans := a.unans ++ reqPairs o.wrote, peak := Nat.max a.peak o.tagmap.length, pfree := o.free,
+             owed := eraseAll (a.owed ++ tagsOf a.unans rid) (discTags o.wrote) }
+  | .send =>
+    { a with unans := a.unans ++ reqPairs o.wrote, peak := Nat.max a.peak o.tagmap.length, pfree := o.free,
+             owed := eraseAll a.owed (discTags o.wrote) }
+  | .ping =>
+    { a with unans := a.unans ++ reqPairs o.wrote, peak := Nat.max a.peak o.tagmap.length, pfree := o.free,
+             owed := eraseAll a.owed (discTags o.wrote) }
 
 def isReqOk (op : Op) (o : Obs) : Bool :=
   match op with
@@ -155,6 +210,13 @@ def uniqueOk (unans : List Nat) : List Nat → Bool
   | [] => true
   | t :: ts => !unans.contains t && !ts.contains t && uniqueOk unans ts
 
+/-- C02: deliveries of a `process _ t` step go to the request of the written, unanswered frame
+    with tag `t`, if there is one; `none` if the step is fine, else the offending pair -/
+def ownReplyBad (a : Acc) (op : Op) (o : Obs) : Option (Nat × Nat) :=
+  match op with
+  | .process _ t => (a.unans.filter (fun p => p.1 == t)).find? (fun p => o.delivered.any (· != p.2))
+  | _ => none
+
 /-- verdict for one step; `a` is the accumulator *before* the step -/
 def specObs (cfg : Cfg) (a : Acc) (idx : Nat) (op : Op) (o : Obs) : Verdict :=
   let given := (if isReqOk op o then [o.assigned] else []) ++ reqTags o.wrote
@@ -164,23 +226,59 @@ def specObs (cfg : Cfg) (a : Acc) (idx : Nat) (op : Op) (o : Obs) : Verdict :=
   match given.find? (fun t => decide (cfg.max ≤ t)) with
   | some t => .fail "range" [V.ofNat idx, V.ofNat t]
   | none =>
-  if !uniqueOk a.unans (reqTags o.wrote) then .fail "unique" [V.ofNat idx, V.ofNats (reqTags o.wrote)]
+  if !uniqueOk a.tags (reqTags o.wrote) then .fail "unique" [V.ofNat idx, V.ofNats (reqTags o.wrote)]
   else
-  match o.free.find? (fun t => !a.pfree.contains t && !answers op t && a.unans.contains t) with
+  match o.free.find? (fun t => !a.pfree.contains t && !answers op t && a.tags.contains t) with
   | some t => .fail "release" [V.ofNat idx, V.ofNat t]
   | none =>
   if isReqOk op o && !a.pfree.isEmpty && !a.pfree.contains o.assigned then
     .fail "reuse" [V.ofNat idx, V.ofNat o.assigned]
   else if op != .reopen && decide (Nat.max a.peak o.tagmap.length + 1 < o.next) then
     .fail "highwater" [V.ofNat idx, V.ofNat o.next, V.ofNat (Nat.max a.peak o.tagmap.length)]
-  else .ok
+  else
+  match ownReplyBad a op o with
+  | some p => .fail "own-reply" [V.ofNat idx, V.ofNat p.1, V.ofNat p.2, V.ofNats o.delivered]
+  | none => .ok
 
 def specGo (cfg : Cfg) (a : Acc) (idx : Nat) : List (Op × Obs) → Verdict
   | [] => .ok
   | (op, o) :: rest =>
     (specObs cfg a idx op o).and (fun _ => specGo cfg (a.after op o) (idx + 1) rest)
 
+/-- C11 + C02 (multiplexed hop) -/
 def spec (cfg : Cfg) (h : List (Op × Obs)) : Verdict := specGo cfg {} 0 h
+
+/-- every written Tdiscarded is due; each settles one due entry -/
+def discOk : List Nat → List Nat → Bool
+  | _, [] => true
+  | owed, t :: ts => owed.contains t && discOk (owed.erase t) ts
+
+/-- what is due when the frames of this step are written (a time-out callback makes its
+    request's unanswered tag due) -/
+def dueNow (a : Acc) (op : Op) : List Nat :=
+  match op with
+  | .notify rid => a.owed ++ tagsOf a.unans rid
+  | _ => a.owed
+
+/-- the C12 clauses for one step -/
+def specObs12 (a : Acc) (idx : Nat) (op : Op) (o : Obs) : Verdict :=
+  match (reqPairs o.wrote).find? (fun p => a.fired.contains p.2) with
+  | some p => .fail "write-after-timeout" [V.ofNat idx, V.ofNat p.2, V.ofNat p.1]
+  | none =>
+  if !discOk (dueNow a op) (discTags o.wrote) then
+    .fail "discard-unexpected" [V.ofNat idx, V.ofNats (discTags o.wrote), V.ofNats (dueNow a op)]
+  else if o.qlen == 0 && !(a.after op o).owed.isEmpty then
+    .fail "discard-missing" [V.ofNat idx, V.ofNats (a.after op o).owed]
+  else .ok
+
+def specGo12 (cfg : Cfg) (a : Acc) (idx : Nat) : List (Op × Obs) → Verdict
+  | [] => .ok
+  | (op, o) :: rest =>
+    ((specObs cfg a idx op o).and (fun _ => specObs12 a idx op o)).and
+      (fun _ => specGo12 cfg (a.after op o) (idx + 1) rest)
+
+/-- C11 + C02 + C12 (multiplexed hop): what the component evaluates -/
+def spec12 (cfg : Cfg) (h : List (Op × Obs)) : Verdict := specGo12 cfg {} 0 h
 
 /-! ### hypotheses: the pool is at least as large as the reserved range, and every label is
     one the code can actually take in the state it is taken in (the harness only reports
@@ -202,7 +300,7 @@ def comp : TComp Cfg St Op Obs where
   step := step
   encObs := encObs
   decObs := decObs
-  spec := spec
+  spec := spec12
   wf := fun cfg ops => cfgWF cfg && opsOk cfg St.init ops
 
 end Scales.TagPool
